@@ -2,9 +2,10 @@
 # Development helper (not a registered check): apply a patch (or reverse a fix commit with -R <sha>) to /repo,
 # run the given property checks, and restore /repo.  usage: try.sh <patch.diff | -R sha> C01 C05 ...
 set -u
+P=""; if [ "$1" != "-R" ]; then P=$(realpath "$1"); fi
 cd /repo || exit 2
 if [ -n "$(git status --porcelain --untracked-files=no)" ]; then echo "repo dirty"; exit 2; fi
-if [ "$1" = "-R" ]; then git show "$2" | git apply -R || exit 2; shift 2; else git apply "$1" || exit 2; shift; fi
+if [ "$1" = "-R" ]; then git show "$2" | git apply -R || exit 2; shift 2; else git apply "$P" || exit 2; shift; fi
 trap 'git -C /repo checkout -- . ; git -C /repo clean -fdq -- . >/dev/null 2>&1' EXIT
 for p in "$@"; do
   out=$(/verif/bin/pwv -prop "$p" 2>&1); rc=$?
